@@ -3,6 +3,7 @@ package query
 import (
 	"bytes"
 	"fmt"
+	"math"
 	"strconv"
 	"strings"
 	"sync"
@@ -215,13 +216,19 @@ func serializeComparableFloat(buf *bytes.Buffer, s string) {
 	serializeFloat(buf, s)
 }
 
+// The key of a datetime is its number of nanoseconds since the epoch. That number exists only for
+// the years 1678 to 2262; an instant outside them is written as seconds and nanoseconds.
 func serializeDatetime(buf *bytes.Buffer, t time.Time) {
-	serializeDatetimeFromUnixNano(buf, t.UnixNano())
-}
-
-func serializeDatetimeFromUnixNano(buf *bytes.Buffer, t int64) {
 	buf.Write([]byte{91, 68, 93})
-	buf.WriteString(value.Int64ToStr(t))
+	if sec := t.Unix(); math.MinInt64/1000000000 < sec && sec < math.MaxInt64/1000000000 {
+		buf.WriteString(value.Int64ToStr(t.UnixNano()))
+		return
+	}
+	buf.WriteString(value.Int64ToStr(t.Unix()))
+	buf.WriteByte('.')
+	nsec := value.Int64ToStr(int64(t.Nanosecond()))
+	buf.WriteString("000000000"[len(nsec):])
+	buf.WriteString(nsec)
 }
 
 func serializeString(buf *bytes.Buffer, s string) {
